@@ -70,6 +70,8 @@ Owes ==
     [] out'.ev = "lookupend" ->
          /\ rets' = rets \cup {<<"lookup", k, (IF out'.res = "val" THEN "ok" ELSE "err")>> : k \in out'.returned}
          /\ owed' = IF out'.res = "val" /\ cache.kind # "none" THEN [doc |-> (IF cache.wfail THEN Nil ELSE cache'.doc), ok |-> ~cache.wfail] ELSE owed
+    [] out'.ev = "ret" /\ out'.call = "refresh" ->
+         /\ rets' = rets \cup {<<"refresh", out'.caller, out'.res>>} /\ UNCHANGED owed
     [] out'.ev = "ret" /\ out'.call = "lookup" ->
          /\ rets' = rets \cup {<<"lookup", out'.caller, out'.res>>} /\ UNCHANGED owed
     [] out'.ev = "close" ->
@@ -91,8 +93,8 @@ TSvcMode == Line("svcmode") /\ Quiet /\ S!SvcMode(E.name, E.mode) /\ Adv /\ UNCH
 \* step due, no timer slept through (so back-off delays and prompt returns are checked exactly)
 TTime    == l <= Len(Trace) /\ Trace[l].t > now /\ Trace[l].ev # "reset" /\ Quiet /\ S!Advance(Trace[l].t) /\ UNCHANGED <<l, rets, owed>>
 TAdv     == Line("adv") /\ Quiet /\ Adv /\ UNCHANGED <<svars, rets, owed>>
-TRefresh == Line("refresh") /\ Quiet /\ S!Refresh(E.caller) /\ Adv /\ UNCHANGED <<rets, owed>>
-TTick    == Line("tick") /\ Quiet /\ S!Refresh("poller") /\ Adv /\ UNCHANGED <<rets, owed>>
+TRefresh == Line("refresh") /\ Quiet /\ S!Refresh(E.caller, Dl(E.deadline)) /\ Adv /\ UNCHANGED <<rets, owed>>
+TTick    == Line("tick") /\ Quiet /\ S!Refresh("poller", Nil) /\ Adv /\ UNCHANGED <<rets, owed>>
 THandle  == Line("handle") /\ Quiet /\ S!Handle(E.name) /\ out'.res = E.res /\ Adv /\ UNCHANGED <<rets, owed>>
 \* a read is legal at any moment, also while outputs are owed or requests are in flight: it never waits
 TRead    == Line("read") /\ S!Read(E.name) /\ out'.ver = E.ver /\ Adv /\ UNCHANGED <<rets, owed>>
@@ -106,13 +108,14 @@ TReq ==
   /\ Line("req") /\ owed = Nil
   /\ \/ S!InitReq(E.name)
      \/ S!PollStep(E.name)
-     \/ \E k \in CallerSet : S!LookupEnter(k)
+     \/ S!FlightSend(E.name)
   /\ out'.ev = "req" /\ out'.name = E.name /\ out'.kind = E.kind /\ out'.old = E.old
   /\ Adv /\ UNCHANGED <<rets, owed>>
 
 TResp ==
   /\ Line("resp") /\ owed = Nil
-  /\ \E f \in BOOLEAN : S!InitResp(E.name, f) \/ S!PollResp(E.name, f) \/ S!LookupResp(E.name, f)
+  /\ \E f \in BOOLEAN : \/ (E.kind = "gic" /\ S!PollResp(E.name, f))
+                         \/ (E.kind = "get" /\ (S!InitResp(E.name, f) \/ S!LookupResp(E.name, f)))
   /\ (IF out'.ev = "lookupend" THEN out'.res = E.res ELSE out'.ev = "resp" /\ out'.res = E.res) /\ out'.ver = E.ver
   /\ Owes /\ Adv
 
@@ -125,7 +128,7 @@ TCacheW ==
 \* (the poller's own Refresh result is only logged by the store, so its line carries res "any")
 TRet ==
   /\ Line("ret") /\ owed = Nil
-  /\ \E r \in (IF E.res = "any" THEN {"ok", "err"} ELSE {E.res}) :
+  /\ \E r \in (IF E.res = "any" THEN {"ok", "err", "ctx"} ELSE {E.res}) :
        /\ <<E.call, E.caller, r>> \in rets
        /\ rets' = rets \ {<<E.call, E.caller, r>>}
   /\ Adv /\ UNCHANGED <<svars, owed>>
@@ -142,9 +145,9 @@ TREnd   == Line("rend") /\ rd[E.reader] # Nil /\ rd[E.reader].got = E.ver /\ rd'
 (* --- steps without a line ----------------------------------------------------------------------------------- *)
 Silent ==
   /\ owed = Nil
-  /\ \/ S!InitRoundEnd \/ S!InitWake \/ S!PollFinish \/ S!PollerExit
+  /\ \/ S!InitRoundEnd \/ S!InitWake \/ S!PollFinish \/ S!PollerGiveUp \/ S!PollerExit
      \/ \E n \in NameSet : (S!PollStep(n) /\ out'.ev = "expire")
-     \/ \E k \in CallerSet : ((S!LookupEnter(k) /\ out'.ev = "join") \/ S!LookupGiveUp(k) \/ S!CtxExpire(k))
+     \/ \E k \in CallerSet : (S!LookupEnter(k) \/ S!LookupGiveUp(k) \/ S!CtxExpire(k) \/ S!RefreshGiveUp(k))
      \/ (cfg.fileClient /\ \E n \in NameSet : (S!InitReq(n) \/ S!InitResp(n, FALSE)))    \* a file-backed client is not scripted
   /\ Owes /\ UNCHANGED l
 
@@ -152,7 +155,7 @@ Silent ==
 TReset ==
   /\ l <= Len(Trace) /\ Trace[l].ev = "reset" /\ Quiet
   /\ cfg' = S!NoCfg /\ m' = [n \in NameSet |-> Nil] /\ handles' = {} /\ phase' = "config" /\ closed' = "open"
-  /\ ini' = S!NoIni /\ poll' = Nil /\ lk' = [n \in NameSet |-> Nil] /\ rq' = [n \in NameSet |-> Nil]
+  /\ ini' = S!NoIni /\ poll' = Nil /\ lk' = [n \in NameSet |-> Nil] /\ rq' = S!NoReqs
   /\ call' = [k \in CallerSet |-> Nil] /\ now' = 0
   /\ hist' = [served |-> [n \in NameSet |-> {}], inst |-> [n \in NameSet |-> <<>>], supplied |-> {}]
   /\ svc' = [n \in NameSet |-> [ver |-> 1, mode |-> "ok"]]
